@@ -388,6 +388,7 @@ func (gen *generator) gepInstType(elemType, src types.Type, indices []ast.TypeVa
 		}
 		if indexType, ok := indexType.(*types.VectorType); ok {
 			idx.VectorLen = indexType.Len
+			idx.Scalable = indexType.Scalable
 		}
 		idxs = append(idxs, idx)
 	}
